@@ -271,6 +271,17 @@ class FSA:
                 elif label in self._out_dict[tail][head]:
                     continue
 
+            # a label leads to a single vertex: if it was on an edge to a
+            # different head, that edge loses it in every view
+            for l in (label if elist else [label]):
+                old_head = self._graph_dict[tail].get(l, head)
+                if old_head != head:
+                    self._out_dict[tail][old_head].remove(l)
+                    self._in_dict[old_head][tail].remove(l)
+                    if len(self._out_dict[tail][old_head]) == 0:
+                        self._out_dict[tail].pop(old_head)
+                        self._in_dict[old_head].pop(tail)
+
             if elist:
                 self._out_dict[tail][head] += label
                 self._in_dict[head][tail] += label
